@@ -3,7 +3,7 @@
      run gen <seed> <first> <n> <dir> <level>
         for case i = first .. first+n-1 (choices derived from (seed, i) only): generate a program of
         the fragment (level 1: F1, 2: F2, 3: F3 = several top-level functions, recursion, self tail
-        calls), write <dir>/c<i>.nev (pretty-printed source) and append to <dir>/model.txt
+        calls, 5: F5 = F3 + catch clauses), write <dir>/c<i>.nev (pretty-printed source) and append to <dir>/model.txt
             @@CASE <i> level=<l> in_fragment=<0|1> nparams=<k> args=<a1>,<a2>,…
             C <opcode number> <w0> <w1>     one per instruction of the model's WHOLE module image
                                             (compile_program: prelude, entry stub, stdlib bodies,
